@@ -75,8 +75,9 @@ def _match_entries(entries, site, facts=None):
             if efn != f or e["kind"] != site.kind:
                 continue
             if "base" in e and e["base"] != base:
-                if f != fn and "::{closure" not in fn:
-                    loose.append(e)
+                # the name the indexed value goes by is a preference, not a requirement (a renamed or inlined local
+                # does not un-audit the site); the per-entry site counts still bound what an entry can cover
+                loose.append(e)
                 continue
             exact.append(e)
     exact.sort(key=lambda e: 0 if "base" in e else 1)
